@@ -140,7 +140,8 @@ libs_st = st.one_of(st.none(), st.lists(st.one_of(st.just(""), libname_st), max_
 source_st = st.one_of(
     st.text(max_size=200, alphabet=st.characters(blacklist_categories=("Cs",))),
     st.text(alphabet="ab \n\r\t{};#%é€𝔘\x00", max_size=300),
-    st.sampled_from(["", "\r\n", "void setup(){}\r\nvoid loop(){}\r", "x" * 100_000]),
+    st.sampled_from(["", "\r\n", "void setup(){}\r\nvoid loop(){}\r", "x" * 100_000, "\ufeff", "\ufeff// caf\u00e9\nvoid setup(){}\n", "a\ufeff", "\ufffe", " \n", "\n\n", "\x0c", "\u2028x"]),
+    st.tuples(st.sampled_from(["\ufeff", "\ufeff\ufeff", " ", "\t", "\n", "\r\n", "\x00", "\u200b"]), st.text(alphabet="ab \n\r;{}", max_size=40), st.sampled_from(["", " ", "\n", "\r", "\ufeff", "\x1a"])).map("".join),
 )
 
 
